@@ -469,6 +469,16 @@ func c18PathShapes(ctx *Ctx, dir string) {
 			return base + "/a/b/../../run.sh"
 		}},
 	}
+	// a relative path with a directory component: it is relative to fan2go's working directory, for the test and for
+	// the execution alike (decoy one level deeper, where a changed working directory of the child would look)
+	shapes = append(shapes, shape{"relative-path-with-directory", func(base string, realGood bool) string {
+		mk(filepath.Join(base, "bin", "run.sh"), realGood)
+		mk(filepath.Join(base, "bin", "bin", "run.sh"), !realGood)
+		_ = os.Chdir(base)
+		return "bin/run.sh"
+	}})
+	cwd, _ := os.Getwd()
+	defer func() { _ = os.Chdir(cwd) }()
 	for _, sh := range shapes {
 		for _, realGood := range []bool{true, false} {
 			for _, via := range []string{"SafeCmdExecution", "CmdSensor", "CmdFan.GetPwm"} {
